@@ -1237,7 +1237,7 @@ def _flag_eval(e, tab, env, depth=4):
 LOADER_CALLS = {"get": (2, "passive"), "_fire_loader_callables": (2, "passive")}
 
 
-@R.rule("C36-R7", floor=6, template="T-SIBLING/T-FLOW",
+@R.rule("C36-R7", floor=4, template="T-SIBLING/T-FLOW",
         desc="the original value of a reference to other mapped objects (uses_objects implementations) that is obtained through a loader "
              "callable -- self.get(.., passive) / self._fire_loader_callables(.., passive) with CALLABLES_OK -- and then recorded as the "
              "attribute's original (handed to _modified_event as `previous`, directly or through a fire_* hook, or to "
